@@ -15,6 +15,7 @@
 package ggql
 
 import (
+	"fmt"
 	"time"
 )
 
@@ -85,7 +86,13 @@ func (t *timeScalar) CoerceOut(v interface{}) (interface{}, error) {
 		v = nil
 	}
 	if err == nil && v != nil {
-		v = tt.In(time.UTC).Format(time.RFC3339Nano)
+		tt = tt.In(time.UTC)
+		// RFC 3339 has a year of four digits, time.Format would write a
+		// year before 0 with a sign and one after 9999 with five digits.
+		if y := tt.Year(); y < 0 || 9999 < y {
+			return nil, fmt.Errorf("%w a time in the year %d into a Time, RFC 3339 can not express it", ErrCoerce, y)
+		}
+		v = tt.Format(time.RFC3339Nano)
 	}
 	return v, err
 }
